@@ -157,7 +157,7 @@ def render(s):
             for mm, _ in p:
                 if mm != me: used.add(mm)
             return "/" + "/".join("%s:%s" % q for q in p)
-        def node(n, ind):
+        def node(n, ind, top=False):
             if n["k"] == "U":
                 t = "%suses %s {\n" % (ind, pre(n["g"], False))
                 i2 = ind + "  "
@@ -179,9 +179,12 @@ def render(s):
                     t += '%saugment "%s" {\n' % (i2, "/".join(x for _, x in a["path"])) + aug_body(a, i2 + "  ") + "%s}\n" % i2
                 return t + "%s}\n" % ind
             k = n["kind"]
-            t = "%s%s %s {\n" % (ind, k, n["name"])
+            if k in ("input", "output"):
+                if not n["kids"]: return ""
+                return "%s%s {\n" % (ind, k) + "".join(node(c, ind + "  ") for c in n["kids"]) + "%s}\n" % ind
+            t = "%s%s %s {\n" % (ind, "rpc" if k == "action" and top else k, n["name"])
             i2 = ind + "  "
-            if n["whens"]: t += '%swhen "true()";\n' % i2
+            if n["whens"] and k not in ("action", "notification"): t += '%swhen "true()";\n' % i2      # (no `when` substatement there)
             t += iffl(n["iffs"], i2)
             if k == "list" and n["kids"] and n["kids"][0].get("name") == "k": t += '%skey "k";\n' % i2
             if k in ("leaf", "leaf-list"): t += typ(n["ref"], n["restr"], i2)
@@ -212,7 +215,7 @@ def render(s):
                 body += "  }\n"
             for g, kids in s["groupings"]:
                 body += "  grouping %s {\n" % g + "".join(node(c, "    ") for c in kids) + "  }\n"
-        for c in m["data"]: body += node(c, "  ")
+        for c in m["data"]: body += node(c, "  ", True)
         for a in m["augs"]:
             body += '  augment "%s" {\n' % apath(a["path"]) + aug_body(a, "    ") + "  }\n"
         for d in m["devs"]:
@@ -244,6 +247,10 @@ def N(kind, name, **kw):
     return n
 
 
+def rng_ok(rng, p):
+    return rng.random() < p
+
+
 def parts_str(parts):
     return "|".join(str(a) if a == b else "%d..%d" % (a, b) for a, b in parts)
 
@@ -266,6 +273,7 @@ class Gen:
         self.tds, self.tdinfo, self.groups, self.ginfo = [], {}, [], {}
         self.notes = set()
         self.gstack = {}
+        self.ops_ok, self.ops_allowed, self.gtop_ops, self.cur_top_ops = False, True, set(), False
 
     def name(self, p="n"):
         self.n += 1
@@ -372,19 +380,34 @@ class Gen:
         return n
 
     def container(self, depth, uses_ok):
-        n = N("container", self.name(), iffs=self.iffs(), kids=self.children(depth + 1, uses_ok))
+        save, self.ops_ok = self.ops_ok, True
+        kids = self.children(depth + 1, uses_ok)
+        if self.ops_allowed and rng_ok(self.rng, 0.12): kids += self.ops()
+        self.ops_ok = save
+        n = N("container", self.name(), iffs=self.iffs(), kids=kids)
         if self.rng.random() < 0.3: n["presence"] = True
         if self.rng.random() < 0.12: n["config"] = False
         if self.rng.random() < 0.05: n["whens"] = 1
         return n
 
     def list_(self, depth, uses_ok):
-        n = N("list", self.name(), iffs=self.iffs(), kids=[N("leaf", "k")] + self.children(depth + 1, uses_ok))
+        save, self.ops_ok = self.ops_ok, True
+        kids = self.children(depth + 1, uses_ok)
+        self.ops_ok = save
+        n = N("list", self.name(), iffs=self.iffs(), kids=[N("leaf", "k")] + kids)
         if self.rng.random() < 0.3: n.update(max=self.rng.randrange(2, 9), setmax=True)
         if self.rng.random() < 0.15: n.update(min=1, setmin=True)
         return n
 
     def choice(self, depth, uses_ok):
+        rng = self.rng
+        save, self.ops_ok = self.ops_ok, False
+        try:
+            return self.choice_(depth, uses_ok)
+        finally:
+            self.ops_ok = save
+
+    def choice_(self, depth, uses_ok):
         rng = self.rng
         n = N("choice", self.name(), iffs=self.iffs(0.05))
         for _ in range(rng.randrange(1, 4)):
@@ -396,6 +419,22 @@ class Gen:
                 n["kids"].append(k)
         if rng.random() < 0.2: n["mand"] = True
         return n
+
+    def ops(self):
+        """an action and/or a notification (RFC 7950 sec. 7.15 / 7.16): plain leaves and a container inside"""
+        rng = self.rng
+        out = []
+        if rng.random() < 0.7:
+            inp = [self.leaf(allow_mand=rng.random() < 0.5) for _ in range(rng.randrange(0, 3))]
+            outp = [self.leaf() for _ in range(rng.randrange(0, 2))]
+            a = N("action", self.name("a"), iffs=self.iffs(), kids=[N("input", "input", kids=inp), N("output", "output", kids=outp)])
+            if rng.random() < 0.1: a["whens"] = 0
+            out.append(a)
+        if rng.random() < 0.6 or not out:
+            kids = [self.leaf() for _ in range(rng.randrange(1, 3))]
+            if rng.random() < 0.3: kids.append(N("container", self.name(), kids=[self.leaf(), self.leaflist()]))
+            out.append(N("notification", self.name("e"), iffs=self.iffs(), kids=kids))
+        return out
 
     def children(self, depth, uses_ok=True, nochoice=False):
         rng = self.rng
@@ -438,12 +477,16 @@ class Gen:
 
     def uses(self):
         rng = self.rng
-        g, body = rng.choice(self.groups)
+        cands = [x for x in self.groups if self.ops_ok or x[0] not in self.gtop_ops]
+        if not cands:
+            return self.leaf()
+        g, body = rng.choice(cands)
+        if g in self.gtop_ops: self.cur_top_ops = True
         u = {"k": "U", "g": g, "whens": 1 if rng.random() < 0.08 else 0, "status": 0, "iffs": self.iffs(0.1), "refines": [], "augs": []}
         targets = self.flat(body)
         rng.shuffle(targets)
         for p, node in targets[:rng.randrange(0, 3)]:
-            if node["name"] == "k" or node["kind"] == "case": continue
+            if node["name"] == "k" or node["kind"] in ("case", "input", "output"): continue
             r = {"path": list(p), "dflts": None, "config": None, "mand": None, "presence": False, "min": None, "max": None, "iffs": []}
             k = node["kind"]
             x = rng.random()
@@ -474,7 +517,20 @@ class Gen:
 
     def grouping(self):
         g = self.name("g")
+        self.ops_ok, self.cur_top_ops = True, False
         body = self.children(1, uses_ok=bool(self.groups))
+        # a uses of a grouping with operations directly inside this grouping, carrying when / if-feature (the child set of the
+        # inner uses goes to the outer statement: data nodes, actions and notifications)
+        if self.gtop_ops and self.rng.random() < 0.35:
+            u = self.uses()
+            if u["k"] == "U":
+                if self.rng.random() < 0.6: u["whens"] = 1
+                if self.rng.random() < 0.6: u["iffs"] = self.iffs(1.0)
+                body.append(u)
+        if self.ops_allowed and self.rng.random() < 0.35:
+            body += self.ops(); self.cur_top_ops = True
+        if self.cur_top_ops or any(c["k"] == "U" and c["g"] in self.gtop_ops for c in body): self.gtop_ops.add(g)
+        self.ops_ok = False
         self.groups.append((g, body))
 
     def schema(self):
@@ -490,10 +546,13 @@ class Gen:
             # a choice at the top level of a module + a foreign augment of its cases: finding F391 (kept to the witness)
             if self.FIX["f391"] or not any(len(p) == 1 and n["kind"] == "choice" for p, n in self.flat([u])): top.append(u)
         if self.FIX["f391"] and rng.random() < 0.3: top.append(self.choice(0, True))     # a choice at the top level (F391 repaired)
+        if rng.random() < 0.3: top += self.ops()                                          # rpc / notification of the module
         mods[0]["data"] = top
         # augment targets: absolute paths of containers / lists / choices / cases of the base data (after expansion)
         self.gstack = {}
-        targets = [([(names[0], x) for x in p], n["kind"], 0) for p, n in self.flat(top) if n["kind"] in ("container", "list", "choice", "case") and not n.get("iffs")]
+        targets = [([(names[0], x) for x in p], n["kind"], 0) for p, n in self.flat(top)
+                   if n["kind"] in ("container", "list", "choice", "case", "input", "output", "notification") and not n.get("iffs")
+                   and not (n["kind"] in ("input", "output") and not n["kids"])]
         for step in range(rng.randrange(0, 7) if nmod > 1 or rng.random() < 0.5 else 0):
             if not targets: break
             tp, tk, need = rng.choice(targets)
@@ -508,8 +567,16 @@ class Gen:
                     c = N("container", self.name(), kids=[self.leaf(allow_mand=False) for _ in range(rng.randrange(1, 3))])
                     kids.append(c)
                     targets.append((tp + [(names[owner], c["name"])], "container", max(owner, need)))
-                elif rng.random() < 0.2 and self.groups and tk != "choice":
-                    g, body = rng.choice(self.groups)
+                elif rng.random() < 0.25 and self.groups and tk != "choice":
+                    inops = any(x in ("input", "output") or x.startswith("e") or x.startswith("a") for _, x in tp)
+                    anyops = {x[0] for x in self.groups if any(n_["kind"] in ("action", "notification") for _, n_ in self.flat(x[1]))}
+                    pool = [x for x in self.groups if (x[0] not in self.gtop_ops or tk in ("container", "list")) and not (inops and x[0] in anyops)]
+                    if not pool:
+                        kids.append(self.leaf(allow_mand=False)); continue
+                    g, body = rng.choice(pool)
+                    if g in self.gtop_ops and rng.random() < 0.7:
+                        a["whens"] = 1 if rng.random() < 0.6 else a["whens"]
+                        a["iffs"] = a["iffs"] or self.iffs(0.6)
                     inst = set()
                     for k_ in range(1, len(tp) + 1): inst |= self.gstack.get(tuple(x for _, x in tp[:k_]), set())
                     # a uses of a grouping inside an augment of a node that came from the same grouping: finding F390 (kept to the witness)
@@ -525,7 +592,7 @@ class Gen:
         for m in mods: rng.shuffle(m["augs"])
         # deviations from the last module (never the base itself)
         if nmod > 1 and rng.random() < 0.5:
-            cands = [(p, n) for p, n in self.flat(top) if n["name"] != "k"]
+            cands = [(p, n) for p, n in self.flat(top) if n["name"] != "k" and n["kind"] not in ("input", "output")]
             rng.shuffle(cands)
             for p, n in cands[:rng.randrange(1, 3)]:
                 path = [(names[0], x) for x in p]
@@ -668,6 +735,23 @@ def witnesses():
     out.append(("f391", {"features": [], "typedefs": [], "groupings": [],
                 "mods": [{"name": "cza", "data": [N("choice", "ch", kids=[N("case", "c1", kids=[N("leaf", "x")])])], "augs": [], "devs": []},
                          {"name": "czb", "data": [], "augs": [aug([("cza", "ch"), ("cza", "c1")], "y")], "devs": []}]}))
+    # F393: `uses g` inside a USES-augment of an instance of g
+    out.append(("f393", {"features": [], "typedefs": [], "groupings": [("g5", [N("container", "c", kids=[N("leaf", "x")])])],
+                "mods": [{"name": "cyc", "data": [N("container", "n10", kids=[U("g5", augs=[{"path": [("-", "c")], "whens": 0, "status": 0, "iffs": [],
+                          "kids": [N("container", "d", kids=[U("g5")])]}])])], "augs": [], "devs": []}]}))
+    # operations in groupings: the child set of an inner uses (data nodes, actions, notifications) gets the when / if-feature of the
+    # enclosing uses and of an augment
+    gop = [N("leaf", "gl"), N("action", "act", kids=[N("input", "input", kids=[N("leaf", "p", mand=True)]), N("output", "output", kids=[N("leaf", "r", ref="int8")])]),
+           N("notification", "evt", kids=[N("leaf", "sev", ref="uint8", dflts=["3"])])]
+    gout = [U("gop", whens=1, iffs=["f1"]), N("leaf", "ol")]
+    for feats in ([], ["f1"], ["f1", "f2"]):
+        out.append(("ops-child-set-%d" % len(feats), {"features": feats, "typedefs": [], "groupings": [("gop", gop), ("gout", gout)],
+                    "mods": [{"name": "cwo", "data": [N("container", "c1", kids=[U("gout", whens=1)]), N("container", "c2", config=False, kids=[N("leaf", "z")]),
+                                                       N("action", "op", kids=[N("input", "input", kids=[N("leaf", "a1")]), N("output", "output", kids=[])]),
+                                                       N("notification", "topevt", kids=[N("leaf", "t1")])], "augs": [], "devs": []},
+                             {"name": "cwp", "data": [], "augs": [{"path": [("cwo", "c2")], "whens": 1, "status": 0, "iffs": ["f2"], "kids": [U("gop")]},
+                                                                  {"path": [("cwo", "op"), ("cwo", "input")], "whens": 0, "status": 0, "iffs": [], "kids": [N("leaf", "a2", mand=True)]},
+                                                                  {"path": [("cwo", "c1"), ("cwo", "evt")], "whens": 0, "status": 0, "iffs": [], "kids": [N("leaf", "more")]}], "devs": []}]}))
     # mandatory child disabled by if-feature: the parent's mandatory flag
     out.append(("mand-disabled", {"features": [], "typedefs": [], "groupings": [],
                 "mods": [{"name": "cwi", "data": [N("container", "c", kids=[N("leaf", "x", mand=True, iffs=["f1"]), N("leaf", "y")]),
@@ -677,7 +761,7 @@ def witnesses():
 
 def classify_exp(component, what, case):
     """findings of the compiler core: F390 by the check's own witness comparison, F391 by the crash site"""
-    if case.get("finding_class") in ("F390", "F392"):
+    if case.get("finding_class") in ("F390", "F392", "F393"):
         return case["finding_class"]
     if case.get("crash") and component == "compile":
         m = re.search(r"schema_compile_node\.c:(\d+):", what)
@@ -698,7 +782,7 @@ def run_exp(cx):
     rng = cx.sub_rng("c11exp")
     Gen.FIX = src_flags()
     cx.dist["c11exp:source-has-repairs:" + (",".join(k for k in ("f390", "f391", "f392") if Gen.FIX.get(k)) or "none")] += 1
-    nsets = cx.n(90, 1500)
+    nsets = cx.n(70, 1500)
     cx.rule("c11exp: %d generated schema values of the compiler-core DSL (typedef chains reused by several leaves, nested groupings with refines at "
             "several levels and uses-augments, choice/case + shorthand, chained / sibling top-level augments over 1-4 modules, deviations, if-feature, "
             "when, status) + 1 in 6 damaged (refine / augment / deviation target missing, wrong kind, duplicate name, config, min>max, default "
@@ -715,6 +799,9 @@ def run_exp(cx):
             s, what = mutate_invalid(rng, s)
             tag = "damaged:" + what
         cases.append(("g%d" % si, s, tag))
+        txt = " ".join(ser_schema(s))
+        cx.dist["c11exp:sets-with-operations"] += int(" N action " in txt or " N notification " in txt)
+        cx.dist["c11exp:sets-with-operations-in-groupings"] += int(any(n_["kind"] in ("action", "notification") for g_, b_ in s["groupings"] for n_ in b_ if n_["k"] == "N"))
     mlines, meta = [], {}
     def ml(op, order, s):
         l = "%d iff %s %s %s" % (len(mlines), op, ",".join(order), " ".join(ser_schema(s)))
@@ -752,16 +839,24 @@ def run_exp(cx):
             o = ids[0][0]
             hmeta[hl(fs, o, 0, names)] = (nm, tag, "flattened", o, 0, ids[0][1], fs)
     ri = cx.run_impl(HARNESS, hlines, component="compile", timeout=900)
-    # witness of F390 (structured: false "references itself" error; the RFC expansion compiles): model and libyang agree on BOTH
-    w390 = {(rend, o, ex): ri.get(hid, ["err", "NoReply"]) for hid, (nm, tag, rend, o, ex, mid, s) in hmeta.items() if nm == "f390"}
-    p390 = [x for x in plan if x[0] == "f390"]
-    if p390:
-        st = [v for (rend, o, ex), v in w390.items() if rend == "structured"]
-        fl = [v for (rend, o, ex), v in w390.items() if rend == "flattened"]
-        m_st = rm.get(p390[0][4][0][1], ["err", "NoReply"]); m_fl = rm.get(p390[0][5], ["err", "NoReply"])
-        if st and fl and all(v[:2] == ["err", "Fail"] for v in st) and all(v[0] == "ok" for v in fl) and m_st[:2] == ["err", "Fail"] and m_fl[0] == "ok":
-            cx.fail("compile", "valid module set rejected: uses of a grouping inside an augment of a node instantiated from the same grouping (false circular-reference error); its RFC expansion compiles",
-                    {"units": render(p390[0][1]), "finding_class": "F390"})
+    # witnesses of F390 / F393 (structured: false "references itself" error; the RFC expansion compiles): when the model predicts the
+    # split verdict (defect present in the source under test), libyang must show it on BOTH renderings, and the finding is reported
+    SPLIT = {"f390": ("F390", "a top-level augment"), "f393": ("F393", "a uses-augment")}
+    split_seen = set()
+    for wn, (fid, where) in SPLIT.items():
+        pw = [x for x in plan if x[0] == wn]
+        if not pw:
+            continue
+        m_st = rm.get(pw[0][4][0][1], ["err", "NoReply"]); m_fl = rm.get(pw[0][5], ["err", "NoReply"])
+        if not (m_st[:2] == ["err", "Fail"] and m_fl[0] == "ok"):
+            continue
+        split_seen.add(wn)
+        w = {(rend, o, ex): ri.get(hid, ["err", "NoReply"]) for hid, (nm, tag, rend, o, ex, mid, s) in hmeta.items() if nm == wn}
+        st = [v for (rend, o, ex), v in w.items() if rend == "structured"]
+        fl = [v for (rend, o, ex), v in w.items() if rend == "flattened"]
+        if st and fl and all(v[:2] == ["err", "Fail"] for v in st) and all(v[0] == "ok" for v in fl):
+            cx.fail("compile", "valid module set rejected: uses of a grouping inside %s of a node instantiated from the same grouping (false circular-reference error); its RFC expansion compiles" % where,
+                    {"units": render(pw[0][1]), "finding_class": fid})
     # law on libyang's own reply (mandatory_parents): a non-presence container is flagged mandatory only if one of its children is
     for hid, (nm, tag, rend, o, ex, mid, s) in hmeta.items():
         a = ri.get(hid, ["err", "NoReply"])
@@ -779,15 +874,16 @@ def run_exp(cx):
         nm, tag, rend, o, ex, mid, s = hmeta[hid]
         a = ri.get(hid, ["err", "NoReply"])
         b = rm.get(mid, ["err", "NoReply"])
-        if nm == "f390" and rend == "flattened":
-            b = rm.get([x for x in plan if x[0] == "f390"][0][5], ["err", "NoReply"])     # the model's compile of the expansion
+        if nm in SPLIT and rend == "flattened":
+            b = rm.get([x for x in plan if x[0] == nm][0][5], ["err", "NoReply"])     # the model's compile of the expansion
         verdict = a[0] if a[0] == "ok" else " ".join(a[:2])
         cx.count((nm, rend, o, ex), True, "c11exp:%s:%s:%s" % (rend, tag.split(":")[0], verdict))
         if a[:2] == ["err", "Crash"] or a[:2] == ["err", "Timeout"]:
             continue
         if rend == "flattened":
             # two `when` statements (node + uses / augment) cannot be written on one node: the count is compared as 0 / >= 1
-            clamp = lambda t: re.sub(r"\|[1-9][0-9]*$", "|1", t)
+            # … and not at all on an action / notification (it only gets there from a uses / augment)
+            clamp = lambda t: re.sub(r"\|[0-9]+$", "|*", t) if re.search(r"\|(action|RPC|notification)\|", t) else re.sub(r"\|[1-9][0-9]*$", "|1", t)
             a, b = [clamp(t) for t in a], [clamp(t) for t in b]
         if a != b:
             cx.disagree("compile", hlines[int(hid)] + "  ## " + rend + " " + tag + " ## model: " + mlines[int(mid)][:2000], a, b)
@@ -795,7 +891,7 @@ def run_exp(cx):
     for nm, s, tag, names, ids, fid, eid in plan:
         a, b = rm.get(ids[0][1], ["err", "NoReply"]), rm.get(fid, ["err", "NoReply"])
         cx.count((nm, "cflat"), True, "c11exp:model-expand-law:" + (a[0] if a[0] == "ok" else " ".join(a[:2])))
-        if a != b and nm != "f390":
+        if a != b and nm not in split_seen:
             cx.disagree("compile", mlines[int(fid)][:3000] + "  ## model law compile = compile . expand", a, b)
         for o, mid in ids:
             if rm.get(mid, ["err"])[:2] == ["err", "Fuel"]:
